@@ -405,21 +405,163 @@ theorem goInt64_small (t : Int) (hr : t.natAbs < 2^53) : OttoVerif.C05.goInt64 (
   unfold OttoVerif.C05.goInt64 truncInt truncAbs
   by_cases h : t < 0 <;> simp [h] <;> omega
 
-theorem set_int (d : DateObj) (hd : d.isNaN = false) (t : Int) (hr : t.natAbs < 2^53) (hdiv : DivExact t) :
-    d.set (ofInt t) = validState t := by
-  unfold DivExact at hdiv
-  have hv : ofInt t = .fin (decide (t < 0)) t.natAbs 0 := by simp [ofInt, hr]
-  have he : epochToInteger (ofInt t) = t := by
-    unfold epochToInteger
-    rw [hv]
-    simp only [floor, ceil, isIntegral]
-    simp [goInt64_small t hr]
-  have ht : epochToTime (ofInt t) = some (stateTime t) := by
-    unfold epochToTime
-    rw [hdiv, hv, goInt64_small t hr]
-    simp [isNaN, isInf, goUnix_state]
-  unfold DateObj.set
-  simp only [he, ht, hd, validState]
+theorem ofInt_small (v : Int) (hr : v.natAbs < 2^53) : ofInt v = fvInt v := by simp [ofInt, fvInt, hr]
+
+-- ---------------------------------------------------------------- comparisons on integral doubles, TimeClip test
+
+
+theorem cmp_fvInt (a b : Int) : cmpReal (fvInt a) (fvInt b) = some (if a < b then .lt else if a = b then .eq else .gt) := by
+  unfold fvInt cmpReal alignInt
+  have ea : (if decide (a < 0) = true then -((a.natAbs * 2 ^ ((0:Int) - (if (0:Int) ≤ 0 then 0 else 0)).toNat : Nat) : Int) else ((a.natAbs * 2 ^ ((0:Int) - (if (0:Int) ≤ 0 then 0 else 0)).toNat : Nat) : Int)) = a := by
+    by_cases h : a < 0 <;> simp [h] <;> omega
+  have eb : (if decide (b < 0) = true then -((b.natAbs * 2 ^ ((0:Int) - (if (0:Int) ≤ 0 then 0 else 0)).toNat : Nat) : Int) else ((b.natAbs * 2 ^ ((0:Int) - (if (0:Int) ≤ 0 then 0 else 0)).toNat : Nat) : Int)) = b := by
+    by_cases h : b < 0 <;> simp [h] <;> omega
+  simp only [ea, eb]
+
+theorem lt_fvInt (a b : Int) : lt (fvInt a) (fvInt b) = decide (a < b) := by
+  unfold lt
+  rw [cmp_fvInt]
+  by_cases h1 : a < b
+  · simp [h1]
+  · by_cases h2 : a = b
+    · simp [h2]
+    · simp [h1, h2]
+
+theorem abs_fvInt (i : Int) : abs (fvInt i) = fvInt (i.natAbs : Int) := by
+  unfold fvInt abs
+  have : ¬ ((i.natAbs : Int) < 0) := by omega
+  simp [this]
+
+theorem beyondMax_fvInt (i : Int) : beyondMax (fvInt i) = decide (i.natAbs > 8640000000000000) := by
+  unfold beyondMax
+  rw [abs_fvInt, show maxTimeValue = fvInt 8640000000000000 from rfl, lt_fvInt]
+  by_cases h : i.natAbs > 8640000000000000
+  · simp [h]; omega
+  · simp [h]; omega
+
+theorem divRNE_ge (a b : Nat) : a / b ≤ divRNE a b := by
+  unfold divRNE; simp only []; split
+  · exact Nat.le_refl _
+  · split
+    · omega
+    · split <;> omega
+
+theorem roundPos_big (n : Nat) (hn : 2^53 ≤ n) (m : Nat) (e : Int) (h : roundPos n 1 = some (m, e)) :
+    2^52 ≤ m ∧ 1 ≤ e := by
+  have hn0 : n ≠ 0 := by omega
+  have hL : 53 ≤ n.log2 := (Nat.le_log2 hn0).2 hn
+  have hpow : 2 ^ n.log2 ≤ n := Nat.log2_self_le hn0
+  obtain ⟨k, hk⟩ : ∃ k, n.log2 = k + 53 := ⟨n.log2 - 53, by omega⟩
+  unfold roundPos at h
+  have l1 : Nat.log2 1 = 0 := by decide
+  simp only [l1, hk] at h
+  have e0 : ((k + 53 : Nat) : Int) - ((0 : Nat) : Int) - 52 = (k : Int) + 1 := by omega
+  simp only [e0] at h
+  have hge : (k : Int) + 1 ≥ 0 := by omega
+  have htn : ((k : Int) + 1).toNat = k + 1 := by omega
+  simp only [hge, if_true, htn, Nat.one_mul] at h
+  have hnotlt : ¬ (n < 2 ^ (k + 1) * 2 ^ 52) := by
+    rw [← Nat.pow_add, show k + 1 + 52 = k + 53 by omega, ← hk]; omega
+  simp only [hnotlt, decide_false, Bool.false_eq_true, if_false] at h
+  have hc : ¬ ((k : Int) + 1 < -1074) := by omega
+  simp only [hc, if_false, hge, if_true, htn] at h
+  have hm0 : 2 ^ 52 ≤ divRNE n (2 ^ (k + 1)) := by
+    refine Nat.le_trans ?_ (divRNE_ge _ _)
+    rw [Nat.le_div_iff_mul_le (Nat.pow_pos (by decide))]
+    rw [← Nat.pow_add, show 52 + (k + 1) = k + 53 by omega, ← hk]; exact hpow
+  generalize divRNE n (2 ^ (k + 1)) = m0 at *
+  by_cases hcar : m0 = 2 ^ 53
+  · simp only [hcar, if_true] at h
+    split at h
+    · simp at h
+    · simp only [Option.some.injEq, Prod.mk.injEq] at h
+      obtain ⟨h1, h2⟩ := h
+      subst h1; subst h2
+      constructor <;> omega
+  · simp only [hcar, if_false] at h
+    split at h
+    · simp at h
+    · simp only [Option.some.injEq, Prod.mk.injEq] at h
+      obtain ⟨h1, h2⟩ := h
+      subst h1; subst h2
+      constructor <;> omega
+
+theorem beyondMax_big (s : Bool) (n : Nat) (hn : 2^53 ≤ n) : beyondMax (ofRatParts s n 1) = true := by
+  unfold ofRatParts
+  have hn0 : ¬ n = 0 := by omega
+  simp only [hn0, if_false]
+  cases hr : roundPos n 1 with
+  | none => simp [beyondMax, abs, lt, cmpReal, maxTimeValue]
+  | some p =>
+    obtain ⟨m, e⟩ := p
+    obtain ⟨hm, he⟩ := roundPos_big n hn m e hr
+    simp only [beyondMax, abs, lt, cmpReal, maxTimeValue, alignInt]
+    have h0e : (0 : Int) ≤ e := by omega
+    simp only [h0e, if_true]
+    obtain ⟨k, hk⟩ : ∃ k : Nat, e = (k : Int) + 1 := ⟨(e - 1).toNat, by omega⟩
+    subst hk
+    have : ((k : Int) + 1 - 0).toNat = k + 1 := by omega
+    simp only [this, Int.sub_self, Int.toNat_zero, Nat.pow_zero, Nat.mul_one]
+    have hk2 : 2 ≤ 2 ^ (k + 1) := by
+      rw [Nat.pow_succ]; have := Nat.pow_pos (a := 2) (n := k) (by decide); omega
+    have hb : 2 ^ 53 ≤ m * 2 ^ (k + 1) := by
+      calc 2 ^ 53 = 2 ^ 52 * 2 := by decide
+        _ ≤ m * 2 ^ (k + 1) := Nat.mul_le_mul hm hk2
+    generalize m * 2 ^ (k + 1) = B at *
+    simp
+    omega
+
+theorem beyondMax_ofInt (i : Int) : beyondMax (ofInt i) = decide (i.natAbs > 8640000000000000) := by
+  by_cases h : i.natAbs < 2^53
+  · rw [ofInt_small i h, beyondMax_fvInt]
+  · have hbig : (2:Nat)^53 ≤ i.natAbs := by omega
+    unfold ofInt
+    simp only [h, if_false]
+    have : i.natAbs > 8640000000000000 := by omega
+    split <;> simp [beyondMax_big _ _ hbig, this]
+
+-- ---------------------------------------------------------------- the float64 gate (dateObject.Set) and the setters
+
+
+/-- the Date object otto holds for an ES5 time value: NaN ↦ invalidDateObject -/
+def stateOf : Spec.TV → DateObj
+  | some t => validState t
+  | none => invalidDateObject
+
+/-- dateObject.Set(float64(t)) for ANY integer t = the object for TimeClip(t).  Inside the range the float
+    division hypothesis `DivExact t` is needed; beyond ±8.64e15 the date becomes invalid unconditionally. -/
+theorem set_ofInt (d : DateObj) (t : Int) (hdiv : t.natAbs ≤ 8640000000000000 → DivExact t) :
+    d.set (ofInt t) = stateOf (Spec.TimeClip t) := by
+  by_cases hr : t.natAbs ≤ 8640000000000000
+  · have hdiv := hdiv hr
+    unfold DivExact at hdiv
+    have hr53 : t.natAbs < 2^53 := by omega
+    have hv : ofInt t = .fin (decide (t < 0)) t.natAbs 0 := by simp [ofInt, hr53]
+    have hb : beyondMax (ofInt t) = false := by rw [beyondMax_ofInt]; simp; omega
+    have he : epochToInteger (ofInt t) = t := by
+      unfold epochToInteger
+      rw [hv]
+      simp only [floor, ceil, isIntegral]
+      simp [goInt64_small t hr53]
+    have ht : epochToTime (ofInt t) = some (stateTime t) := by
+      unfold epochToTime
+      rw [hb, hdiv, hv, goInt64_small t hr53]
+      simp [isNaN, isInf, goUnix_state]
+    have hc : Spec.TimeClip t = some t := by unfold Spec.TimeClip; rw [if_neg (by omega)]
+    unfold DateObj.set
+    simp only [he, ht, hc, stateOf, validState]
+  · have hb : beyondMax (ofInt t) = true := by rw [beyondMax_ofInt]; simp; omega
+    have ht : epochToTime (ofInt t) = none := by
+      unfold epochToTime; rw [hb]; simp
+    have hc : Spec.TimeClip t = none := by unfold Spec.TimeClip; rw [if_pos (by omega)]
+    unfold DateObj.set
+    simp only [ht, hc, stateOf, invalidDateObject]
+
+theorem set_nonfinite (d : DateObj) (v : FV) (h : Spec.field? v = none) : d.set v = invalidDateObject := by
+  cases v with
+  | nan => simp [DateObj.set, epochToTime, isNaN, invalidDateObject]
+  | inf s => simp [DateObj.set, epochToTime, isNaN, isInf, invalidDateObject]
+  | fin s m e => simp [Spec.field?] at h
 
 theorem ofInt_p63 : ofInt (2^63) = .fin false 4503599627370496 11 := by decide +kernel
 theorem ofInt_m63 : ofInt (-(2^63)) = .fin true 4503599627370496 11 := by decide +kernel
@@ -444,7 +586,6 @@ theorem numberArg_small (v : Int) (hr : v.natAbs < 2^53) : numberArg (.fin (deci
     simp only [e1, e2, goInt64_small v hr]
     simp
 
-theorem ofInt_small (v : Int) (hr : v.natAbs < 2^53) : ofInt v = fvInt v := by simp [ofInt, fvInt, hr]
 
 theorem map_ofInt_small (vs : List Int) (hsm : ∀ v ∈ vs, v.natAbs < 2^53) : vs.map ofInt = vs.map fvInt := by
   induction vs with
@@ -462,77 +603,160 @@ theorem numberArgs_small (vs : List Int) (hsm : ∀ v ∈ vs, v.natAbs < 2^53) :
     have := numberArg_small a (hsm a (by simp))
     unfold fvInt; rw [this]
 
-/-- one setUTC* call with integral arguments, through the whole float64 round trip -/
-theorem setUTC_int (k : Setter) (t : Int) (vs : List Int) (hk : k ≠ .time) (h1 : 1 ≤ vs.length) (h2 : vs.length ≤ k.limit)
-    (hsm : ∀ v ∈ vs, v.natAbs < 2^53) (t' : Int)
-    (ht' : Spec.setUTCRaw (toSpec k) (some t) (vs.map ofInt) = some t') (hr : t'.natAbs < 2^53) (hdiv : DivExact t') :
-    setUTC k (validState t) (vs.map ofInt) = (validState t', some t') := by
-  rw [map_ofInt_small vs hsm] at ht' ⊢
+
+theorem stateOf_value (tv : Spec.TV) : (stateOf tv).value = tv := by cases tv <;> rfl
+
+theorem newDate_zero : newDate zero = validState 0 := by decide +kernel
+
+theorem setUTC_valid (k : Setter) (t : Int) (vs : List Int) (hk : k ≠ .time) (h1 : 1 ≤ vs.length) (h2 : vs.length ≤ k.limit)
+    (hsm : ∀ v ∈ vs, v.natAbs < 2^53)
+    (hdiv : ∀ t', Spec.setUTCRaw (toSpec k) (some t) (vs.map ofInt) = some t' → t'.natAbs ≤ 8640000000000000 → DivExact t') :
+    setUTC k (validState t) (vs.map ofInt) =
+      (stateOf (Spec.setUTC (toSpec k) (some t) (vs.map ofInt)), Spec.setUTC (toSpec k) (some t) (vs.map ofInt)) := by
+  rw [map_ofInt_small vs hsm] at hdiv ⊢
   have hc := setter_core k t vs hk h1 h2
-  rw [ht'] at hc
-  have hc' : setCore k (stateTime t) vs = t' := by injection hc
+  have hspec : Spec.setUTC (toSpec k) (some t) (vs.map fvInt) = Spec.TimeClip (setCore k (stateTime t) vs) := by
+    unfold Spec.setUTC; rw [← hc]; rfl
+  have hd := set_ofInt (validState t) (setCore k (stateTime t) vs) (hdiv _ hc.symm)
   have htake : (vs.map fvInt).take k.limit = vs.map fvInt := by
     apply List.take_of_length_le; simp; exact h2
   have hne : (vs.map fvInt).isEmpty = false := by
     cases vs with
     | nil => simp at h1
     | cons a as => rfl
+  rw [hspec]
   unfold setUTC
   cases k <;> first | exact absurd rfl hk | (
-    simp only [validState, Bool.false_eq_true, if_false, htake, hne, numberArgs_small vs hsm]
-    rw [show stateTime t = (validState t).time from rfl] at hc'
-    simp only [validState] at hc'
-    rw [hc', set_int _ rfl t' hr hdiv]
-    rfl)
+    simp only [validState, Bool.false_eq_true, if_false, and_false, htake, hne, numberArgs_small vs hsm] at hd ⊢
+    rw [show stateTime t = (validState t).time from rfl] at hd ⊢
+    simp only [validState] at hd ⊢
+    rw [hd, stateOf_value])
 
-/-- one call of any of the eight setters (setTime included) with integral arguments -/
-theorem setUTC_step (k : Setter) (t : Int) (vs : List Int) (h1 : 1 ≤ vs.length) (h2 : vs.length ≤ k.limit)
-    (hsm : ∀ v ∈ vs, v.natAbs < 2^53) (t' : Int)
-    (ht' : Spec.setUTCRaw (toSpec k) (some t) (vs.map ofInt) = some t') (hr : t'.natAbs < 2^53) (hdiv : DivExact t') :
-    setUTC k (validState t) (vs.map ofInt) = (validState t', some t') := by
+/-- one call of any of the eight setters (setTime included) with 1..limit integral arguments, from ANY object state
+    (valid or invalid): new state and return value are the ES5 ones. -/
+theorem setUTC_step (k : Setter) (tv : Spec.TV) (vs : List Int) (h1 : 1 ≤ vs.length) (h2 : vs.length ≤ k.limit)
+    (hsm : ∀ v ∈ vs, v.natAbs < 2^53)
+    (hdiv : ∀ t', Spec.setUTCRaw (toSpec k) tv (vs.map ofInt) = some t' → t'.natAbs ≤ 8640000000000000 → DivExact t') :
+    setUTC k (stateOf tv) (vs.map ofInt) =
+      (stateOf (Spec.setUTC (toSpec k) tv (vs.map ofInt)), Spec.setUTC (toSpec k) tv (vs.map ofInt)) := by
   by_cases hk : k = .time
   · subst hk
     rcases vs with _ | ⟨v, _ | ⟨w, rest⟩⟩
     · simp at h1
     · have hv := hsm v (by simp)
-      simp only [List.map_cons, List.map_nil, toSpec, Spec.setUTCRaw] at ht'
-      simp only [List.getElem?_cons_zero, ofInt_small v hv, field_fvInt] at ht'
-      have : v = t' := by injection ht'
-      subst this
+      have hraw : Spec.setUTCRaw (toSpec .time) tv ([v].map ofInt) = some v := by
+        simp [toSpec, Spec.setUTCRaw, ofInt_small v hv, field_fvInt]
+      have hspec : Spec.setUTC (toSpec .time) tv ([v].map ofInt) = Spec.TimeClip v := by
+        unfold Spec.setUTC; rw [hraw]; rfl
+      rw [hspec]
       simp only [setUTC, List.map_cons, List.map_nil, List.headD_cons]
-      rw [set_int _ rfl v hr hdiv]; rfl
+      rw [set_ofInt _ v (hdiv v hraw), stateOf_value]
     · simp [Setter.limit] at h2
-  · exact setUTC_int k t vs hk h1 h2 hsm t' ht' hr hdiv
+  · cases tv with
+    | some t => exact setUTC_valid k t vs hk h1 h2 hsm hdiv
+    | none =>
+      by_cases hy : k = .year
+      · subst hy
+        have hraw : Spec.setUTCRaw (toSpec .year) none (vs.map ofInt) = Spec.setUTCRaw (toSpec .year) (some 0) (vs.map ofInt) := rfl
+        have hspec : Spec.setUTC (toSpec .year) none (vs.map ofInt) = Spec.setUTC (toSpec .year) (some 0) (vs.map ofInt) := rfl
+        rw [hspec, ← setUTC_valid .year 0 vs hk h1 h2 hsm (by rw [← hraw]; exact hdiv)]
+        simp [setUTC, stateOf, invalidDateObject, newDate_zero]
+      · have hspec : Spec.setUTC (toSpec k) none (vs.map ofInt) = none := by
+          cases k <;> first | exact absurd rfl hk | exact absurd rfl hy | rfl
+        rw [hspec]
+        cases k <;> first | exact absurd rfl hk | exact absurd rfl hy | simp [setUTC, stateOf, invalidDateObject]
 
 def liftM (s : Setter × List Int) : Setter × List FV := (s.1, s.2.map ofInt)
 def liftS (s : Setter × List Int) : Spec.Setter × List FV := (toSpec s.1, s.2.map ofInt)
 
-/-- every call in the history has 1..limit integral arguments, and every intermediate time value stays inside the
-    ES5 range (¬Dev no_timeclip) and passes the float64 gate -/
-def Good : Int → List (Setter × List Int) → Prop
+/-- side conditions of a history: every call has 1..limit integral arguments (below 2^53), and every in-range
+    intermediate value passes the float64 division gate.  No range restriction: beyond ±8.64e15 both sides go NaN. -/
+def Good : Spec.TV → List (Setter × List Int) → Prop
   | _, [] => True
-  | t, (k, vs) :: rest => 1 ≤ vs.length ∧ vs.length ≤ k.limit ∧ (∀ v ∈ vs, v.natAbs < 2^53) ∧
-      ∃ t', Spec.setUTCRaw (toSpec k) (some t) (vs.map ofInt) = some t' ∧ t'.natAbs ≤ 8640000000000000 ∧ DivExact t' ∧ Good t' rest
+  | tv, (k, vs) :: rest => 1 ≤ vs.length ∧ vs.length ≤ k.limit ∧ (∀ v ∈ vs, v.natAbs < 2^53) ∧
+      (∀ t', Spec.setUTCRaw (toSpec k) tv (vs.map ofInt) = some t' → t'.natAbs ≤ 8640000000000000 → DivExact t') ∧
+      Good (Spec.setUTC (toSpec k) tv (vs.map ofInt)) rest
 
-theorem setter_histories (hist : List (Setter × List Int)) : ∀ t : Int, Good t hist →
-    ∃ tf, (Spec.runSetters (some t) (hist.map liftS)).1 = some tf ∧
-      runSetters (validState t) (hist.map liftM) = (validState tf, (Spec.runSetters (some t) (hist.map liftS)).2) := by
+theorem setter_histories (hist : List (Setter × List Int)) : ∀ tv : Spec.TV, Good tv hist →
+    runSetters (stateOf tv) (hist.map liftM) =
+      (stateOf (Spec.runSetters tv (hist.map liftS)).1, (Spec.runSetters tv (hist.map liftS)).2) := by
   induction hist with
-  | nil => intro t _; exact ⟨t, rfl, rfl⟩
+  | nil => intro tv _; rfl
   | cons s rest ih =>
-    intro t hg
+    intro tv hg
     obtain ⟨k, vs⟩ := s
-    obtain ⟨h1, h2, hsm, t', ht', hr, hdiv, hrest⟩ := hg
-    have hstep := setUTC_step k t vs h1 h2 hsm t' ht' (by omega) hdiv
-    have hspec : Spec.setUTC (toSpec k) (some t) (vs.map ofInt) = some t' := by
-      unfold Spec.setUTC; rw [ht']; simp [Spec.TimeClip]; omega
-    obtain ⟨tf, hf1, hf2⟩ := ih t' hrest
-    refine ⟨tf, ?_, ?_⟩
-    · simp only [List.map_cons, liftS, Spec.runSetters, hspec]; exact hf1
-    · simp only [List.map_cons, liftS, liftM, Spec.runSetters, runSetters, hspec, hstep]
-      rw [hf2]
+    obtain ⟨h1, h2, hsm, hdiv, hrest⟩ := hg
+    have hstep := setUTC_step k tv vs h1 h2 hsm hdiv
+    have := ih _ hrest
+    simp only [List.map_cons, liftS, liftM, Spec.runSetters, runSetters, hstep]
+    rw [this]
+
+-- ---------------------------------------------------------------- Date.UTC wrapper on integral doubles
+
+
+theorem add1900_fin : ∀ y : Fin 100, OttoVerif.C05.goInt64 (add (.fin false 1900 0) (.fin false y.val 0)) = (y.val : Int) + 1900 := by
+  decide +kernel
+
+theorem le_fvInt (a b : Int) : le (fvInt a) (fvInt b) = decide (a ≤ b) := by
+  unfold le
+  rw [cmp_fvInt]
+  by_cases h1 : a < b
+  · simp [h1]; omega
+  · by_cases h2 : a = b
+    · simp [h2]
+    · simp [h1, h2]; omega
+
+theorem pick_fvInt (v : Int) : (isNaN (fvInt v) || isInf (fvInt v)) = false := rfl
+
+theorem trunc_fvInt (v : Int) : trunc (fvInt v) = fvInt v := by simp [fvInt, trunc, isIntegral]
+
+theorem clip_eq (um : Int) : (if beyondMax (ofInt um) = true then none else some um) = Spec.TimeClip um := by
+  rw [beyondMax_ofInt]; unfold Spec.TimeClip
+  by_cases h : um.natAbs > 8640000000000000 <;> simp [h]
+
+theorem year_adjust (y : Int) (hr : y.natAbs < 2^53) :
+    OttoVerif.C05.goInt64 (if (le zero (trunc (fvInt y)) && le (trunc (fvInt y)) (.fin false 99 0)) = true then add (.fin false 1900 0) (trunc (fvInt y)) else fvInt y) = Spec.fullYear y := by
+  have e0 : zero = fvInt 0 := rfl
+  have e99 : (FV.fin false 99 0) = fvInt 99 := rfl
+  rw [trunc_fvInt, e0, e99, le_fvInt, le_fvInt]
+  unfold Spec.fullYear
+  by_cases h : 0 ≤ y ∧ y ≤ 99
+  · have h1 := h.1; have h2 := h.2
+    simp only [h1, h2, decide_true, Bool.and_self, if_true, and_self]
+    have := add1900_fin ⟨y.toNat, by omega⟩
+    simp only [] at this
+    have ey : fvInt y = .fin false y.toNat 0 := by
+      unfold fvInt; congr 1
+      · simp; omega
+      · omega
+    rw [ey, this]; omega
+  · have : ¬ (decide (0 ≤ y) && decide (y ≤ 99)) = true := by simp; omega
+    simp only [this, h, if_false]
+    exact goInt64_small y hr
+
+/-- Date.UTC(y, m, …) with 2..7 integral arguments, through the float64 wrapper, TimeClip included -/
+theorem dateUTC_int (vs : List Int) (h2 : 2 ≤ vs.length) (h7 : vs.length ≤ 7) (hsm : ∀ v ∈ vs, v.natAbs < 2^53) :
+    newDateTime (vs.map ofInt) = Spec.dateUTC (vs.map ofInt) := by
+  rw [map_ofInt_small vs hsm]
+  have g : ∀ v ∈ vs, OttoVerif.C05.goInt64 (fvInt v) = v := fun v hv => goInt64_small v (hsm v hv)
+  have ya : ∀ v ∈ vs, OttoVerif.C05.goInt64 (if le zero (trunc (fvInt v)) = true ∧ le (trunc (fvInt v)) (.fin false 99 0) = true then add (.fin false 1900 0) (trunc (fvInt v)) else fvInt v) = Spec.fullYear v := by
+    intro v hv
+    have := year_adjust v (hsm v hv)
+    simp only [Bool.and_eq_true] at this
+    exact this
+  have mc0 : ∀ y m d h mi s : Int, goUnixMilli (goDate y (m + 1) d h mi s 0) = Spec.MakeDate (Spec.MakeDay y m d) (Spec.MakeTime h mi s 0) := by
+    intro y m d h mi s
+    have := make_compose y m d h mi s 0
+    simpa using this
+  have z0 : OttoVerif.C05.goInt64 zero = 0 := by decide
+  have o1 : OttoVerif.C05.goInt64 one = 1 := by decide
+  rcases vs with _ | ⟨a, _ | ⟨b, _ | ⟨c, _ | ⟨d, _ | ⟨e, _ | ⟨f, _ | ⟨g', _ | ⟨x, rest⟩⟩⟩⟩⟩⟩⟩⟩ <;> simp at h2 h7
+  all_goals
+    simp only [List.mem_cons, List.mem_nil_iff, or_false, forall_eq_or_imp, forall_eq] at g ya
+    simp [newDateTime, Spec.dateUTC, Spec.dateUTCRaw, pick_fvInt, field_fvInt, dateCore, make_compose, mc0, g, ya, z0, o1, clip_eq]
 
 -- ---------------------------------------------------------------- ISO-8601 strings
+
 
 theorem digits_zero (w : Nat) : Spec.digits w 0 = List.replicate w 48 := by
   induction w with
@@ -619,23 +843,55 @@ theorem field_ranges (t : Int) :
     all_goals (simp only [Spec.monthStart]; omega)
   all_goals (simp only [Spec.WeekDay, Spec.HourFromTime, Spec.MinFromTime, Spec.SecFromTime, Spec.msFromTime]; omega)
 
-/-- toISOString of a valid date with a four-digit year is the §15.9.1.15 string -/
-theorem iso_format_eq (t : Int) (hy0 : 0 ≤ Spec.YearFromTime t) (hy1 : Spec.YearFromTime t ≤ 9999) :
+
+theorem sprintf_eq (x : Int) (h : x.natAbs < 10 ^ 6) :
+    goSprintfPlus07 x = (if x < 0 then 45 else 43) :: Spec.digits 6 x.natAbs := by
+  unfold goSprintfPlus07
+  have := pad_natDigits 6 25 x.natAbs (by omega) (by omega) h
+  simp only []
+  rw [List.append_assoc, this]
+  split <;> rfl
+
+/-- the year of a time value in the ES5 range -/
+theorem year_bound (t : Int) (h : t.natAbs ≤ 8640000000000000) :
+    -271821 ≤ Spec.YearFromTime t ∧ Spec.YearFromTime t ≤ 275760 := by
+  have hb := yft_bounds t
+  have hd : -100000000 ≤ Spec.Day t ∧ Spec.Day t ≤ 100000000 := by unfold Spec.Day; omega
+  have e1 : Spec.DayFromYear 275761 = 100000110 := by decide
+  have e2 : Spec.DayFromYear (-271821) = -100000109 := by decide
+  constructor
+  · by_cases hc : Spec.YearFromTime t + 1 ≤ -271821
+    · have := dayFromYear_le _ _ hc; omega
+    · omega
+  · by_cases hc : 275761 ≤ Spec.YearFromTime t
+    · have := dayFromYear_le _ _ hc; omega
+    · omega
+
+/-- toISOString of a valid date is the §15.9.1.15 string, expanded years included (|year| < 10^6) -/
+theorem iso_format_eq (t : Int) (hy : (Spec.YearFromTime t).natAbs < 10 ^ 6) :
     goFormatISO (stateTime t) = Spec.isoString t := by
   have hd := goAbsDate_eq _ _ (sameDay_state t)
-  have hm := monthFromTime_range t
   unfold goFormatISO Spec.isoString
   simp only [goYear, goMonth, goDay, hd, goHour_state, goMinute_state, goSecond_state]
-  obtain ⟨_, hdt, _, hh, hmi, hs, hms⟩ := field_ranges t
+  obtain ⟨hm, hdt, _, hh, hmi, hs, hms⟩ := field_ranges t
   have ens : (stateTime t).nsec = Spec.msFromTime t * 1000000 := rfl
-  rw [goAppendInt_nonneg _ 4 hy0 (by omega) (by omega) (by omega),
-      goAppendInt_nonneg (Spec.MonthFromTime t + 1) 2 (by omega) (by omega) (by omega) (by omega),
+  rw [goAppendInt_nonneg (Spec.MonthFromTime t + 1) 2 (by omega) (by omega) (by omega) (by omega),
       goAppendInt_nonneg (Spec.DateFromTime t) 2 (by omega) (by omega) (by omega) (by omega),
       goAppendInt_nonneg (Spec.HourFromTime t) 2 (by omega) (by omega) (by omega) (by omega),
       goAppendInt_nonneg (Spec.MinFromTime t) 2 (by omega) (by omega) (by omega) (by omega),
       goAppendInt_nonneg (Spec.SecFromTime t) 2 (by omega) (by omega) (by omega) (by omega),
       ens, app9 _ hms.1 hms.2]
-  simp [hy0, hy1]
+  by_cases h4 : 0 ≤ Spec.YearFromTime t ∧ Spec.YearFromTime t ≤ 9999
+  · have hn : ¬ (Spec.YearFromTime t < 0 ∨ Spec.YearFromTime t > 9999) := by omega
+    rw [if_neg hn, if_pos h4, goAppendInt_nonneg _ 4 h4.1 (by omega) (by omega) (by omega)]
+  · have hn : Spec.YearFromTime t < 0 ∨ Spec.YearFromTime t > 9999 := by omega
+    rw [if_pos hn, if_neg h4, sprintf_eq _ hy]
+    by_cases hneg : Spec.YearFromTime t < 0
+    · simp only [hneg, if_true]
+      rw [show (Spec.YearFromTime t).natAbs = (-Spec.YearFromTime t).toNat by omega]
+    · simp only [hneg, if_false]
+      rw [show (Spec.YearFromTime t).natAbs = (Spec.YearFromTime t).toNat by omega]
+
 theorem digitVal_ok (a : Nat) (h : a < 10) : digitVal? (48 + a) = some (a : Int) := by
   unfold digitVal?
   rw [if_pos (by omega)]
@@ -644,22 +900,20 @@ theorem digitVal_ok (a : Nat) (h : a < 10) : digitVal? (48 + a) = some (a : Int)
 theorem num2_ok (a b : Nat) (ha : a < 10) (hb : b < 10) : num2? (48 + a) (48 + b) = some ((a : Int) * 10 + b) := by
   simp [num2?, digitVal_ok, ha, hb]
 
-theorem parse_shape (y mo d h mi s ms : Nat) (hy : y < 10000) (hmo : mo < 100) (hd : d < 100) (hh : h < 100) (hmi : mi < 100) (hs : s < 100) (hms : ms < 1000) :
-    dateParseISO (Spec.digits 4 y ++ [45] ++ Spec.digits 2 mo ++ [45] ++ Spec.digits 2 d ++ [84] ++ Spec.digits 2 h ++ [58] ++ Spec.digits 2 mi ++ [58]
-        ++ Spec.digits 2 s ++ [46] ++ Spec.digits 3 ms ++ [90]) =
-      (if (mo : Int) ≤ 0 ∨ 12 < (mo : Int) ∨ (h : Int) ≥ 24 ∨ (mi : Int) ≥ 60 ∨ (s : Int) ≥ 60 ∨ (d : Int) < 1 ∨ (d : Int) > goDaysIn mo y then some none
-       else some (some (goUnixMilli (goDate y mo d h mi s ((ms : Int) * 1000000))))) := by
+
+theorem parseTail_ok (mo d h mi s ms : Nat) (hmo : mo < 100) (hd : d < 100) (hh : h < 100) (hmi : mi < 100) (hs : s < 100) (hms : ms < 1000) :
+    parseTail ([45] ++ Spec.digits 2 mo ++ [45] ++ Spec.digits 2 d ++ [84] ++ Spec.digits 2 h ++ [58] ++ Spec.digits 2 mi ++ [58]
+        ++ Spec.digits 2 s ++ [46] ++ Spec.digits 3 ms ++ [90]) = some ((mo : Int), (d : Int), (h : Int), (mi : Int), (s : Int), (ms : Int)) := by
   simp only [Spec.digits, List.nil_append, List.cons_append]
-  unfold dateParseISO
+  unfold parseTail
   simp only []
   rw [num2_ok _ _ (by omega) (by omega), num2_ok _ _ (by omega) (by omega), num2_ok _ _ (by omega) (by omega), num2_ok _ _ (by omega) (by omega),
-      num2_ok _ _ (by omega) (by omega), num2_ok _ _ (by omega) (by omega), num2_ok _ _ (by omega) (by omega), num2_ok _ _ (by omega) (by omega),
-      digitVal_ok _ (by omega)]
+      num2_ok _ _ (by omega) (by omega), num2_ok _ _ (by omega) (by omega), digitVal_ok _ (by omega)]
   simp only []
   have e2 : ∀ n : Nat, n < 100 → ((n / 10 % 10 : Nat) : Int) * 10 + ((n % 10 : Nat) : Int) = (n : Int) := by intro n h; omega
-  have ey : (((y / 10 / 10 / 10 % 10 : Nat) : Int) * 10 + ((y / 10 / 10 % 10 : Nat) : Int)) * 100 + (((y / 10 % 10 : Nat) : Int) * 10 + ((y % 10 : Nat) : Int)) = (y : Int) := by omega
   have ems : ((ms / 10 / 10 % 10 : Nat) : Int) * 100 + (((ms / 10 % 10 : Nat) : Int) * 10 + ((ms % 10 : Nat) : Int)) = (ms : Int) := by omega
-  rw [e2 mo hmo, e2 d hd, e2 h hh, e2 mi hmi, e2 s hs, ey, ems]
+  rw [e2 mo hmo, e2 d hd, e2 h hh, e2 mi hmi, e2 s hs, ems]
+
 set_option maxRecDepth 100000 in
 theorem date_le_fin : ∀ n : Fin 366, ∀ l : Fin 2, (n.val < 365 + l.val) →
     (n.val : Int) - Spec.monthStart (monthOf n.val l.val) l.val + 1 ≤
@@ -681,87 +935,77 @@ theorem date_le_daysIn (t : Int) : Spec.DateFromTime t ≤ goDaysIn (Spec.MonthF
   rw [← hd, ← hl'] at this
   exact this
 
-/-- Date.parse(d.toISOString()) = d.getTime() for every valid date with a four-digit year -/
-theorem iso_roundtrip (t : Int) (hy0 : 0 ≤ Spec.YearFromTime t) (hy1 : Spec.YearFromTime t ≤ 9999) :
-    dateParseISO (goFormatISO (stateTime t)) = some (some t) := by
-  rw [iso_format_eq t hy0 hy1]
+
+theorem parseFields_ok (t : Int) (h : t.natAbs ≤ 8640000000000000) (year shift : Int)
+    (hys : year + shift = Spec.YearFromTime t) (hleap : goIsLeap year = goIsLeap (Spec.YearFromTime t)) :
+    parseFields year shift (Spec.MonthFromTime t + 1) (Spec.DateFromTime t) (Spec.HourFromTime t) (Spec.MinFromTime t)
+      (Spec.SecFromTime t) (Spec.msFromTime t) = some t := by
   obtain ⟨hm, hdt, _, hh, hmi, hs, hms⟩ := field_ranges t
   have hdi := date_le_daysIn t
-  unfold Spec.isoString
-  simp only [hy0, hy1, and_self, if_true]
-  rw [parse_shape _ _ _ _ _ _ _ (by omega) (by omega) (by omega) (by omega) (by omega) (by omega) (by omega)]
-  rw [show ((Spec.YearFromTime t).toNat : Int) = Spec.YearFromTime t by omega,
-      show (((Spec.MonthFromTime t + 1).toNat : Nat) : Int) = Spec.MonthFromTime t + 1 by omega,
+  have hdi' : Spec.DateFromTime t ≤ goDaysIn (Spec.MonthFromTime t + 1) year := by
+    unfold goDaysIn at hdi ⊢; rw [hleap]; exact hdi
+  unfold parseFields
+  rw [if_neg (by omega), hys, make_compose, makeDay_roundtrip, makeTime_roundtrip, makeDate_roundtrip]
+  have hb : beyondMax (ofInt t) = false := by rw [beyondMax_ofInt]; simp; omega
+  simp [hb]
+
+theorem isLeap_cycle (y : Int) : goIsLeap (2000 + goMod (goMod y 400 + 400) 400) = goIsLeap y := by
+  have h1 := goIsLeap_iff (2000 + goMod (goMod y 400 + 400) 400)
+  have h2 := goIsLeap_iff y
+  have hd : Spec.DaysInYear (2000 + goMod (goMod y 400 + 400) 400) = Spec.DaysInYear y := by
+    unfold Spec.DaysInYear goMod goDiv
+    repeat' split
+    all_goals omega
+  cases ha : goIsLeap (2000 + goMod (goMod y 400 + 400) 400) <;> cases hb : goIsLeap y <;> simp_all
+
+/-- Date.parse(d.toISOString()) = d.getTime() for EVERY valid date (four-digit and expanded years) -/
+theorem iso_roundtrip (t : Int) (h : t.natAbs ≤ 8640000000000000) :
+    dateParseISO (goFormatISO (stateTime t)) = some (some t) := by
+  obtain ⟨hy0, hy1⟩ := year_bound t h
+  rw [iso_format_eq t (by omega)]
+  obtain ⟨hm, hdt, _, hh, hmi, hs, hms⟩ := field_ranges t
+  have pt := parseTail_ok (Spec.MonthFromTime t + 1).toNat (Spec.DateFromTime t).toNat (Spec.HourFromTime t).toNat
+    (Spec.MinFromTime t).toNat (Spec.SecFromTime t).toNat (Spec.msFromTime t).toNat
+    (by omega) (by omega) (by omega) (by omega) (by omega) (by omega)
+  rw [show (((Spec.MonthFromTime t + 1).toNat : Nat) : Int) = Spec.MonthFromTime t + 1 by omega,
       show ((Spec.DateFromTime t).toNat : Int) = Spec.DateFromTime t by omega,
       show ((Spec.HourFromTime t).toNat : Int) = Spec.HourFromTime t by omega,
       show ((Spec.MinFromTime t).toNat : Int) = Spec.MinFromTime t by omega,
       show ((Spec.SecFromTime t).toNat : Int) = Spec.SecFromTime t by omega,
-      show ((Spec.msFromTime t).toNat : Int) = Spec.msFromTime t by omega]
-  rw [if_neg (by omega), make_compose, makeDay_roundtrip, makeTime_roundtrip, makeDate_roundtrip]
-
--- ---------------------------------------------------------------- Date.UTC wrapper on integral doubles
-
-
-theorem add1900_fin : ∀ y : Fin 100, OttoVerif.C05.goInt64 (add (.fin false y.val 0) (.fin false 1900 0)) = (y.val : Int) + 1900 := by
-  decide +kernel
-
-theorem le_fvInt (a b : Int) : le (fvInt a) (fvInt b) = decide (a ≤ b) := by
-  have key : cmpReal (fvInt a) (fvInt b) = some (if a < b then .lt else if a = b then .eq else .gt) := by
-    unfold fvInt cmpReal alignInt
-    have ea : (if decide (a < 0) = true then -((a.natAbs * 2 ^ ((0:Int) - (if (0:Int) ≤ 0 then 0 else 0)).toNat : Nat) : Int) else ((a.natAbs * 2 ^ ((0:Int) - (if (0:Int) ≤ 0 then 0 else 0)).toNat : Nat) : Int)) = a := by
-      by_cases h : a < 0 <;> simp [h] <;> omega
-    have eb : (if decide (b < 0) = true then -((b.natAbs * 2 ^ ((0:Int) - (if (0:Int) ≤ 0 then 0 else 0)).toNat : Nat) : Int) else ((b.natAbs * 2 ^ ((0:Int) - (if (0:Int) ≤ 0 then 0 else 0)).toNat : Nat) : Int)) = b := by
-      by_cases h : b < 0 <;> simp [h] <;> omega
-    simp only [ea, eb]
-  unfold le
-  rw [key]
-  by_cases h1 : a < b
-  · simp [h1]; omega
-  · by_cases h2 : a = b
-    · simp [h2]
-    · simp [h1, h2]; omega
-
-theorem pick_fvInt (v : Int) : (isNaN (fvInt v) || isInf (fvInt v)) = false := rfl
-
-theorem year_adjust (y : Int) (hr : y.natAbs < 2^53) :
-    OttoVerif.C05.goInt64 (if (le zero (fvInt y) && le (fvInt y) (.fin false 99 0)) = true then add (fvInt y) (.fin false 1900 0) else fvInt y) = Spec.fullYear y := by
-  have e0 : zero = fvInt 0 := rfl
-  have e99 : (FV.fin false 99 0) = fvInt 99 := rfl
-  rw [e0, e99, le_fvInt, le_fvInt]
-  unfold Spec.fullYear
-  by_cases h : 0 ≤ y ∧ y ≤ 99
-  · have h1 := h.1; have h2 := h.2
-    simp only [h1, h2, decide_true, Bool.and_self, if_true, and_self]
-    have := add1900_fin ⟨y.toNat, by omega⟩
-    simp only [] at this
-    have ey : fvInt y = .fin false y.toNat 0 := by
-      unfold fvInt; congr 1
-      · simp; omega
-      · omega
-    rw [ey, this]; omega
-  · have : ¬ (decide (0 ≤ y) && decide (y ≤ 99)) = true := by simp; omega
-    simp only [this, h, if_false]
-    exact goInt64_small y hr
-
-/-- Date.UTC(y, m, …) with 2..7 integral arguments, through the float64 wrapper -/
-theorem dateUTC_int (vs : List Int) (h2 : 2 ≤ vs.length) (h7 : vs.length ≤ 7) (hsm : ∀ v ∈ vs, v.natAbs < 2^53) :
-    newDateTime (vs.map ofInt) = Spec.dateUTCRaw (vs.map ofInt) := by
-  rw [map_ofInt_small vs hsm]
-  have g : ∀ v ∈ vs, OttoVerif.C05.goInt64 (fvInt v) = v := fun v hv => goInt64_small v (hsm v hv)
-  have ya : ∀ v ∈ vs, OttoVerif.C05.goInt64 (if le zero (fvInt v) = true ∧ le (fvInt v) (.fin false 99 0) = true then add (fvInt v) (.fin false 1900 0) else fvInt v) = Spec.fullYear v := by
-    intro v hv
-    have := year_adjust v (hsm v hv)
-    simp only [Bool.and_eq_true] at this
-    exact this
-  have mc0 : ∀ y m d h mi s : Int, goUnixMilli (goDate y (m + 1) d h mi s 0) = Spec.MakeDate (Spec.MakeDay y m d) (Spec.MakeTime h mi s 0) := by
-    intro y m d h mi s
-    have := make_compose y m d h mi s 0
-    simpa using this
-  have z0 : OttoVerif.C05.goInt64 zero = 0 := by decide
-  have o1 : OttoVerif.C05.goInt64 one = 1 := by decide
-  rcases vs with _ | ⟨a, _ | ⟨b, _ | ⟨c, _ | ⟨d, _ | ⟨e, _ | ⟨f, _ | ⟨g', _ | ⟨x, rest⟩⟩⟩⟩⟩⟩⟩⟩ <;> simp at h2 h7
-  all_goals
-    simp only [List.mem_cons, List.mem_nil_iff, or_false, forall_eq_or_imp, forall_eq] at g ya
-    simp [newDateTime, Spec.dateUTCRaw, pick_fvInt, field_fvInt, dateCore, make_compose, mc0, g, ya, z0, o1]
+      show ((Spec.msFromTime t).toNat : Int) = Spec.msFromTime t by omega] at pt
+  simp only [Spec.digits, List.nil_append, List.cons_append] at pt
+  unfold Spec.isoString
+  by_cases h4 : 0 ≤ Spec.YearFromTime t ∧ Spec.YearFromTime t ≤ 9999
+  · simp only [h4, and_self, if_true]
+    simp only [Spec.digits, List.nil_append, List.cons_append]
+    unfold dateParseISO
+    simp only [pt]
+    rw [num2_ok _ _ (by omega) (by omega), num2_ok _ _ (by omega) (by omega)]
+    simp only []
+    have ey : (((((Spec.YearFromTime t).toNat / 10 / 10 / 10 % 10 : Nat) : Int) * 10 + (((Spec.YearFromTime t).toNat / 10 / 10 % 10 : Nat) : Int)) * 100 + ((((Spec.YearFromTime t).toNat / 10 % 10 : Nat) : Int) * 10 + (((Spec.YearFromTime t).toNat % 10 : Nat) : Int))) = Spec.YearFromTime t := by omega
+    rw [ey, parseFields_ok t h _ 0 (by omega) rfl]
+  · have hn : Spec.YearFromTime t < 0 ∨ Spec.YearFromTime t > 9999 := by omega
+    simp only [h4, if_false]
+    by_cases hneg : Spec.YearFromTime t < 0
+    · simp only [hneg, if_true]
+      simp only [Spec.digits, List.nil_append, List.cons_append]
+      unfold dateParseISO
+      simp only [pt]
+      rw [num2_ok _ _ (by omega) (by omega), num2_ok _ _ (by omega) (by omega), num2_ok _ _ (by omega) (by omega)]
+      have eu : (((((-Spec.YearFromTime t).toNat / 10 / 10 / 10 / 10 / 10 % 10 : Nat) : Int) * 10 + (((-Spec.YearFromTime t).toNat / 10 / 10 / 10 / 10 % 10 : Nat) : Int)) * 10000
+          + ((((-Spec.YearFromTime t).toNat / 10 / 10 / 10 % 10 : Nat) : Int) * 10 + (((-Spec.YearFromTime t).toNat / 10 / 10 % 10 : Nat) : Int)) * 100
+          + ((((-Spec.YearFromTime t).toNat / 10 % 10 : Nat) : Int) * 10 + (((-Spec.YearFromTime t).toNat % 10 : Nat) : Int))) = -Spec.YearFromTime t := by omega
+      simp only [eu, ne_eq, reduceCtorEq, not_true_eq_false, not_false_eq_true, and_false, and_true, false_and, if_false, if_true, Int.neg_neg, Nat.reduceEqDiff]
+      rw [if_neg (by omega), parseFields_ok t h _ _ (by omega) (isLeap_cycle _)]
+    · simp only [hneg, if_false]
+      simp only [Spec.digits, List.nil_append, List.cons_append]
+      unfold dateParseISO
+      simp only [pt]
+      rw [num2_ok _ _ (by omega) (by omega), num2_ok _ _ (by omega) (by omega), num2_ok _ _ (by omega) (by omega)]
+      have eu : (((((Spec.YearFromTime t).toNat / 10 / 10 / 10 / 10 / 10 % 10 : Nat) : Int) * 10 + (((Spec.YearFromTime t).toNat / 10 / 10 / 10 / 10 % 10 : Nat) : Int)) * 10000
+          + ((((Spec.YearFromTime t).toNat / 10 / 10 / 10 % 10 : Nat) : Int) * 10 + (((Spec.YearFromTime t).toNat / 10 / 10 % 10 : Nat) : Int)) * 100
+          + ((((Spec.YearFromTime t).toNat / 10 % 10 : Nat) : Int) * 10 + (((Spec.YearFromTime t).toNat % 10 : Nat) : Int))) = Spec.YearFromTime t := by omega
+      simp only [eu, ne_eq, reduceCtorEq, not_true_eq_false, not_false_eq_true, and_false, and_true, false_and, if_false, if_true, Int.neg_neg, Nat.reduceEqDiff]
+      rw [parseFields_ok t h _ _ (by omega) (isLeap_cycle _)]
 
 end OttoVerif.C12.Lem
